@@ -160,13 +160,13 @@ def calc_file(mat, g, h):
     with Scratch() as tmp:
         path = os.path.join(tmp, 'b.xlsx')
         wb.save(path)
-        old = signal.signal(signal.SIGALRM, _alarm)
-        signal.alarm(60)
+        old = signal.signal(signal.SIGPROF, _alarm)
+        signal.setitimer(signal.ITIMER_PROF, 60)     # CPU time, not wall time: independent of machine load
         try:
             s = formulas.ExcelModel().loads(path).finish(circular=True).calculate()
         finally:
-            signal.alarm(0)
-            signal.signal(signal.SIGALRM, old)
+            signal.setitimer(signal.ITIMER_PROF, 0)
+            signal.signal(signal.SIGPROF, old)
     return read_solution(s)
 
 
@@ -234,15 +234,15 @@ def calc(d, order=None, seam=None):
             res = seam(res)
             return iter(res)
         cyc.simple_cycles = patched
-    old = signal.signal(signal.SIGALRM, _alarm)
-    signal.alarm(60)
+    old = signal.signal(signal.SIGPROF, _alarm)
+    signal.setitimer(signal.ITIMER_PROF, 60)     # CPU time, not wall time: independent of machine load
     try:
         m = formulas.ExcelModel().from_dict(d, assemble=False)
         m.finish(complete=False, circular=True)
         s = m.calculate()
     finally:
-        signal.alarm(0)
-        signal.signal(signal.SIGALRM, old)
+        signal.setitimer(signal.ITIMER_PROF, 0)
+        signal.signal(signal.SIGPROF, old)
         cyc.simple_cycles = orig
     return read_solution(s)
 
@@ -321,7 +321,7 @@ def run_wb(case):
         try:
             got = calc_file(mat, g, h) if order == 'file' else calc(d, order, seam)
         except Hang:
-            fails.append(Fail('hang', got='no result after 60 s', exp='termination', path=label, **desc))
+            fails.append(Fail('hang', got='no result after 60 s of CPU time', exp='termination', path=label, **desc))
             continue
         except Exception as e:
             fails.append(Fail('escape', got=type(getattr(e, 'ex', e)).__name__ + ':' + str(e)[:80], exp='a solution', path=label, **desc))
